@@ -65,13 +65,14 @@ theorem standardisedCol0 (sq sqT : α → α) (hc : SqrtContract sq) (mag : α) 
       simp only [bne_eq_false_iff_eq]
       exact isNone_map _ _ (standardise_none _ _) (standardise_some _ _)
     have hpm := present_mat_fromNumpyCol sq h
+    rw [scaleOf_eq_guardScale hc.zero] at hpm
     have hv0 := varL_nonneg (present c)
     unfold standardisedCol
     rw [he, hiso]
     simp only [Bool.false_eq_true, if_false]
     have hloc : (fromNumpyCol sq c).loc = some (meanL (present c)) := by rw [fromNumpyCol_of_ne sq h]
     have hscale : (fromNumpyCol sq c).scale = some (guardScale (sq (varL (present c)))) := by
-      rw [fromNumpyCol_of_ne sq h]
+      rw [fromNumpyCol_of_ne sq h, scaleOf_eq_guardScale hc.zero]
     rw [hloc, closeO0_self]
     simp only [Bool.not_true, Bool.false_eq_true, if_false]
     by_cases hv : varL (present c) = 0
